@@ -34,6 +34,10 @@ for path in parts:
     for k, v in cov.get("known_findings_excluded", {}).items():
         kfe = mc.setdefault("known_findings_excluded", {})
         kfe[k] = kfe.get(k, 0) + v
+    for k, v in cov.items():
+        # engine-specific extras (e.g. libFuzzer campaign statistics)
+        if k not in mc and k != "inconclusive":
+            mc[k] = v
     if "inconclusive" in cov:
         mc.setdefault("inconclusive", []).extend(cov["inconclusive"])
     merged["assumptions"] = merged.get("assumptions", []) + [
